@@ -7,8 +7,11 @@ S=$(mktemp -d /tmp/fxvar-XXXXXX)
 trap "rm -rf $S" EXIT
 rsync -a --exclude _build --exclude .git /repo/ $S/
 if [[ "$V" == revert:* ]]; then
-  git -C /repo show "${V#revert:}" > $S/.var.diff
-  (cd $S && patch -R -p1 -s < .var.diff)
+  for c in $(echo "${V#revert:}" | tr ',' ' '); do
+    git -C /repo show "$c" > $S/.var.diff
+    (cd $S && patch -R -p1 -s < .var.diff)
+  done
+  rm -f $S/.var.diff
 else
   (cd $S && patch -p1 -s < "$(realpath "$V")")
 fi
